@@ -163,6 +163,17 @@ def c13_jobs(tier, seed):
     return j
 
 
+def c14_jobs(tier, seed):
+    q = tier == "quick"
+    s = 15 if q else 150
+    j = []
+    j += shards("dbg", "w_contain", "c14", 3, s, seed)
+    j += shards("rel", "w_contain", "c14", 2, s, seed, first=10)
+    j += shards("asan", "w_contain", "c14", 3, s, seed, first=20)
+    j += [Job("miri", "w_contain", "c14 --seed %d --shard %d --secs %d" % (seed, 100 + i, 40 if q else 400), timeout=600 if q else 2400, miri_flags=M1, engine="miri-full") for i in range(5 if q else 8)]
+    return j
+
+
 PROPS = {
     "C09": {
         "level": "exploration",
@@ -269,5 +280,12 @@ PROPS = {
         "rule": "zero_copy_connection over process-local storage and POSIX shared memory. Sequential: ALL histories up to length 5 (quick) / 6 (thorough) over {attach sender, attach receiver, detach sender, detach receiver, forced removal of the sender / receiver role of a leaked (dead) handle, attach with a mismatching buffer size} against a model of the registered roles: second attach of a role refused, existence == some role registered, token sent by the attached sender arrives at the attached receiver, mismatching attach refused with the documented error without disturbing the pair, no residue. Concurrent: 2-3 threads attach/detach random roles on one name under hook off / depth-1 stall plans / depth-2 / random delays (debug, release, TSan): holding intervals of one role never overlap, does_exist sampled inside every holding interval is true, after the last detach false, only documented attach errors. Non-trivial = a history of maximal length / an execution in which attach calls overlapped in time; exhaustive=true refers to the sequential box.",
         "assumptions": COMMON_ASSUMPTIONS + ["a forced removal is only issued for a role whose handle is leaked (its owner is dead), as the contract requires"],
         "floor": (2000, 50),
+    },
+    "C14": {
+        "level": "exploration",
+        "jobs": c14_jobs,
+        "rule": "for RelocatableVec, RelocatableQueue, RelocatableSlotMap, RelocatableFlatMap, RelocatableString, UniqueIndexSet, RobustUniqueIndexSet, RelocatableIndexQueue, RelocatableSafelyOverflowingIndexQueue, RelocatableBitSet and mpmc::Container (capacity 1-4): the structure is built by new_uninit + init(bump allocator) inside one block; a random history runs against a std model and after every operation, with probability 1/4, the whole block is byte-copied to a fresh allocation at another in-page offset, the old block is poisoned with 0xAA and freed, and the history continues on the copy (debug, release, ASan, Miri). Non-trivial = a history with at least one relocation; distinct = distinct (structure, history).",
+        "assumptions": ["relocation = byte-for-byte copy of header + payload as a whole (what another process mapping the segment sees); moving only the header is not a supported operation"],
+        "floor": (2000, 200),
     },
 }
